@@ -15,14 +15,17 @@ demo=$src/demo_$X.c
 srcs=$(grep -h "cc .*demo_$X" "$src/notes.md" | head -1 | tr ' ' '\n' | grep "/src/.*\.c$" | sed "s#/tmp/wt_[A-Z0-9]*#$W#" | tr '\n' ' ')
 extra=$(grep -h "cc .*demo_$X" "$src/notes.md" | head -1 | tr ' ' '\n' | grep -E "^-fsanitize|^-g$|^-O" | tr '\n' ' ')
 [ -z "$srcs" ] && { echo "cannot find compile line for demo_$X in notes.md"; srcs="$W/src/a.c"; }
+cxx=""; grep -h "cc .*demo_$X" "$src/notes.md" | head -1 | grep -q -- "-x c++" && cxx=1
+compile() { # $1 = output
+  if [ -n "$cxx" ]; then cc -I"$W/include" $extra -o "$1" -x c++ "$demo" -x c $srcs -x none -lstdc++ -lm; else cc -I"$W/include" $extra -o "$1" "$demo" $srcs -lm; fi; }
 build_and_test() { (cd "$W" && cmake -G Ninja -B _build -S . -DBUILD_TESTING=ON >/dev/null 2>&1 && cmake --build _build >/dev/null 2>&1 && ctest --test-dir _build -j8 2>&1 | grep -E "tests passed|tests failed" ); }
 echo "== clean: $(build_and_test)"
-cc -I"$W/include" $extra -o "$W/demo_clean" "$demo" $srcs -lm 2>/dev/null || cc -I"$W/include" $extra -o "$W/demo_clean" "$demo" $srcs -lm
+compile "$W/demo_clean" 2>/dev/null || compile "$W/demo_clean"
 "$W/demo_clean" >/dev/null 2>&1; rc_clean=$?
 if ! git -C "$W" apply "$src/$X.diff"; then echo "PATCH DOES NOT APPLY"; git -C /repo worktree remove --force "$W"; exit 3; fi
 tests=$(build_and_test)
 echo "== patched: $tests"
-cc -I"$W/include" $extra -o "$W/demo_mut" "$demo" $srcs -lm 2>/dev/null
+compile "$W/demo_mut" 2>/dev/null
 "$W/demo_mut" >/dev/null 2>&1; rc_mut=$?
 echo "== demo exit: clean=$rc_clean patched=$rc_mut"
 git -C /repo worktree remove --force "$W"
